@@ -418,6 +418,11 @@ def discharge(site, fx, policy):
             b = bounded_index(r, fam)
             if a and b and site.ty == "usize":
                 return "D-two-indices: both operands <= isize::MAX (%s | %s), sum cannot overflow usize" % (a, b)
+            # x + count(.. over the part of a slice from x on ..) <= len of that slice
+            for u_, w_ in ((l, r), (r, l)):
+                cs = count_source(w_, fam)
+                if cs is not None and cs[0] == "from" and same_value(cs[1], u_, fam):
+                    return "D-count-bounded: x + (a count over the elements from x on) <= len of the slice"
             return None
         if op == "Sub":
             # N - (e % N)
@@ -430,6 +435,10 @@ def discharge(site, fx, policy):
                 ub = upper_bound(r, fam)
                 if ub is not None and ub <= lv:
                     return "D-sub-bound: %d - r with r <= %d" % (lv, ub)
+            # x - count(.. over the part of a slice before x ..): at most x elements are counted
+            cs = count_source(r, fam)
+            if cs is not None and cs[0] == "before" and same_value(cs[1], l, fam):
+                return "D-count-bounded: a count over the first `x` elements is <= x"
             # x - 1 (or x -= 1) under a dominating x > 0 on the same, not yet modified binding
             if int_lit(r) == 1 and FL.peel(l).get("k") in ("Var", "Upvar") and (FL.peel(l).get("ty") or site.ty or "").startswith("u"):
                 if positive_fact(FL.peel(l), get_facts()) and not modified_before(FL.peel(l), n, site.parents):
@@ -710,6 +719,53 @@ def pos_over_same(x, pos, fam, depth=0):
         # the sequence binding must not change between the search and the slice
         return None
     return "split point is the payload of position()/binary_search over the same (unmodified) sequence"
+
+
+def count_source(n, fam, depth=0):
+    """n is `<iterator over part of a slice>.count()` (possibly through a let): ("before"|"from", split point expr) when the
+    iterator runs over `x.split_at(p).0` / `x[..p]` (before) or `.1` / `x[p..]` (from), through rev/take_while/filter/iter"""
+    if depth > 4:
+        return None
+    n = FL.peel(n)
+    if n.get("k") in ("Var", "Upvar"):
+        s_ = fam.origins.single(n["id"])
+        if s_ and s_[0] == () and s_[2] == "let" and s_[1] is not None and not fam.origins.is_reassigned(n["id"]):
+            return count_source(s_[1], fam, depth + 1)
+        return None
+    if not F.is_call(n, "std::iter::Iterator::count"):
+        return None
+    it = FL.peel(n["args"][0])
+    while F.is_call(it, "std::iter::Iterator::rev", "std::iter::Iterator::take_while", "std::iter::Iterator::filter",
+                    "std::iter::Iterator::skip_while", "std::iter::Iterator::take"):
+        it = FL.peel(it["args"][0])
+    seq = iter_source(it)
+    if seq is None:
+        return None
+    return slice_part(seq, fam)
+
+
+def slice_part(seq, fam, depth=0):
+    seq = FL.peel(seq)
+    if depth > 4:
+        return None
+    if seq.get("k") in ("Var", "Upvar"):
+        srcs = fam.origins.sources(seq["id"])
+        if len(srcs) == 1 and srcs[0][2] == "let" and srcs[0][1] is not None and not fam.origins.is_reassigned(seq["id"]):
+            path, expr, how = srcs[0]
+            e = FL.peel(expr)
+            # let (before, from) = x.split_at(p)
+            if F.is_call(e, "core::slice::<impl [T]>::split_at") and len(path) == 1 and path[0][0] in ("tuple", "leaf") and str(path[0][1]) in ("0", "1"):
+                return ("before" if str(path[0][1]) == "0" else "from", e["args"][1])
+            if path == ():
+                return slice_part(e, fam, depth + 1)
+        return None
+    if F.is_call(seq, "std::ops::Index::index"):
+        rng = F.strip(seq["args"][1])
+        if rng.get("k") == "Adt" and rng["adt"].endswith("RangeTo") and not rng["adt"].endswith("RangeToInclusive"):
+            return ("before", rng["fields"][0]["e"])
+        if rng.get("k") == "Adt" and rng["adt"].endswith("RangeFrom"):
+            return ("from", rng["fields"][0]["e"])
+    return None
 
 
 def positive_fact(v, facts):
